@@ -63,7 +63,7 @@ def qvocab(tier: str) -> List[Dict[str, Any]]:
     return [{'k': 'Q', 'name': n, 'type': t, 'cls': c, 'qu': u} for n in NAMES[tier] for t in QTYPES for c, u in QCLASSES]
 
 
-def make(d: Dict[str, Any]):
+def make(d: Dict[str, Any], caller_keeps_using_its_list: bool = False):
     from zeroconf import DNSAddress, DNSHinfo, DNSNsec, DNSPointer, DNSQuestion, DNSService, DNSText
 
     k = d['k']
@@ -82,7 +82,14 @@ def make(d: Dict[str, Any]):
         return DNSService(d['name'], typ, cls, d['ttl'], d['prio'], d['weight'], d['port'], d['target'], c)
     if k == 'HINFO':
         return DNSHinfo(d['name'], typ, cls, d['ttl'], d['cpu'], d['os'], c)
-    return DNSNsec(d['name'], typ, cls, d['ttl'], d['next'], list(d['types']), c)
+    # the caller goes on using the list it passed (appends a type, re-uses it for another record): the record made from it stays
+    # what it was made as
+    types = list(d['types'])
+    rec = DNSNsec(d['name'], typ, cls, d['ttl'], d['next'], types, c)
+    if caller_keeps_using_its_list:
+        types.append(255)
+        types.reverse()
+    return rec
 
 
 def identity(d: Dict[str, Any]) -> Tuple:
@@ -117,7 +124,7 @@ def check_pair(da: Dict[str, Any], db: Dict[str, Any]) -> Dict[str, Any]:
     from zeroconf import DNSCache
     from zeroconf._dns import DNSRRSet
 
-    a, b = make(da), make(db)
+    a, b = make(da, True), make(db)
     ia, ib = identity(da), identity(db)
     same = ia == ib
     det = {'a': da, 'b': db, 'same': same}
@@ -256,6 +263,15 @@ def wide_pair(draw) -> Dict[str, Any]:
         elif e == 'kind' and b['k'] in ('PTR', 'CNAME'):
             b['k'] = 'CNAME' if b['k'] == 'PTR' else 'PTR'
     return {'a': a, 'b': b}
+
+
+
+def FLAKY_IS_VIOLATION(case: Any) -> bool:
+    """This check is a pure function of the case (no clock, no threads, no randomness outside the case): when a violation is
+    observed and the very same case passes on Hypothesis' re-run, the library has carried state from an earlier case into
+    this one (a process-wide memo, a shared container) - on a correct tree the objects of one case cannot affect the next.
+    What was seen stands."""
+    return True
 
 
 def strategy(tier: str):
